@@ -475,6 +475,13 @@ def gen_adapt_passes(rng, tier, np=None):
         ops.append('adapt dim=2 n=%d,%d jitter=%.2f patches=%s mseed=%d metric=uniform:%.3f passes=%d' %
                    (rng.randint(2, 4), rng.randint(2, 4), rng.choice([0, 0.3]), rng.choice(['sides', 'one']),
                     rng.randint(1, 10 ** 6), rng.uniform(0.15, 0.5), passes))
+    # strongly anisotropic 2-D requests on a mesh that is not aligned with them: the regime in which a smoothing
+    # move can leave the star of its vertex (orientation guard of ref_smooth_no_geom_tri_improve)
+    for passes in (2, 4):
+        ops.append('adapt dim=2 n=%d,%d jitter=%.2f patches=sides mseed=%d metric=%s passes=%d' %
+                   (rng.randint(3, 5), rng.randint(3, 5), rng.choice([0.2, 0.3]), rng.randint(1, 10 ** 6),
+                    rng.choice(['aniso:0.100,%.4f,1' % rng.uniform(0.0003, 0.0006),
+                                'rot:%.4f,0.100,1,%.3f' % (rng.uniform(0.0003, 0.0006), rng.uniform(0.2, 1.3))]), passes))
     return ops
 
 
